@@ -85,6 +85,10 @@ func drivePoint(c *ctx) {
 	abstract := []*secp256k1.Point{
 		secp256k1.NewIdentityPoint(), G, neg(G), dbl(G), neg(dbl(G)), mulG(big.NewInt(3)),
 		R1, neg(R1), dbl(R1), neg(dbl(R1)), R2, mulG(add(bigN, -1)), mulG(new(big.Int).Rsh(bigN, 1)),
+		// the endomorphism orbit of R1: lambda*R1 = (beta*x, y) and lambda^2*R1 share R1's y (and -lambda*R1 shares nothing):
+		// pairs that agree in exactly one affine coordinate
+		secp256k1.NewIdentityPoint().VerifMulBeta(R1), secp256k1.NewIdentityPoint().VerifMulBeta(secp256k1.NewIdentityPoint().VerifMulBeta(R1)),
+		neg(secp256k1.NewIdentityPoint().VerifMulBeta(R1)),
 	}
 	pool := repPool(r, abstract, c.scale(4, 6))
 
